@@ -170,8 +170,8 @@ fn part1(st: &mut Stats) {
         use crate::digxml::{Pin, PinKind, TestDesc};
         let pins = vec![Pin::new(PinKind::In, "A").bits("4"), Pin::new(PinKind::Out, "Q").bits("4"), Pin::new(PinKind::In, "B"), Pin::new(PinKind::In, "C").bits("2"), Pin::new(PinKind::In, "D")];
         let tests = vec![
-            TestDesc { label: Some("t".into()), source: "A A_out B B_out C C_out Q\n1 X 0 1 Z 2 3\nZ 5 1 X 1 X X\n".into() },
-            TestDesc { label: Some("u".into()), source: "D_out B_out A\n1 0 3\n".into() },
+            TestDesc { label: Some("t".into()), source: "A A_out B B_out C C_out Q\n1 X 0 1 Z 2 3\nZ 5 1 X 1 X X\n".into(), extra: vec![] },
+            TestDesc { label: Some("u".into()), source: "D_out B_out A\n1 0 3\n".into(), extra: vec![] },
         ];
         let doc = crate::digxml::render(&pins, &tests);
         hooks::set_map_order(3, 0);
